@@ -22,7 +22,16 @@ ASSOC = {'Assoc': 'ASSOCIATED', 'Dis': 'DISASSOCIATED', 'No': 'NO_ASSOCIATION'}
 class CtxSession:
     def __init__(self, **kw):
         install_clock()
-        self.pair = Pair(**kw)
+        import os
+        from sdc11073.provider import RoleProviderComponents
+        from tutorial.productandroles.exampleproduct import ExtendedExampleProduct
+        from tutorial.productandroles.waveformprovider.waveformproviderimpl import GenericWaveformProvider
+        from verif.common import VERIF
+        # the extended tutorial product serves SetContextState for the location context too (operation opSetLocCtx of
+        # the fixture), so that location changes and SetContextState calls meet on the same context descriptor
+        roles = RoleProviderComponents(role_provider_class=ExtendedExampleProduct,
+                                       waveform_provider_class=GenericWaveformProvider)
+        self.pair = Pair(fixture=os.path.join(VERIF, 'fixtures', 'one_mds_locop.xml'), role_provider=roles, **kw)
         self.mdib = self.pair.mdib
         self.proj = Projector(HANDLES, CTX)
         self.proj.map_c = {}
@@ -80,7 +89,9 @@ class CtxSession:
                 out['props'] = rec['props']
                 out['dropped'] = dropped
                 if props:
-                    fut = self.client.set_context_state('opSetPatCtx', props)
+                    op = {'pc': 'opSetPatCtx', 'lc': 'opSetLocCtx'}[rec['props'][0]['d']]
+                    out['op'] = op
+                    fut = self.client.set_context_state(op, props)
                     result = fut.result(timeout=10)
                     state = result.InvocationInfo.InvocationState.value
                     res = 'ok' if state == 'Fin' else f'failed:{state}'
@@ -97,11 +108,17 @@ def check(run, replay_path=None):
     res = run_tlc('ContextMC', 'Context_mc.cfg', coverage=True, timeout=1800)
     run.add_tlc(res, ['SetLocation', 'SetContextState'])
     num = run.pick(150, 4000)
-    res = run_tlc('ContextMC', 'Context_sim.cfg', workers=1, simulate=f'num={num}', depth=8, seed=run.seed)
+    pool = run.pick(3000, 12000)
+    res = run_tlc('ContextSim', 'Context_sim.cfg', workers=1, simulate=f'num={pool}', depth=16, seed=run.seed)
     run.add_tlc(res)
     behs = json_lines(res.stdout, 'BEH')
-    if len(behs) < num // 2:
-        raise MachineryError(f'expected about {num} behaviours, got {len(behs)}')
+    if len(behs) < pool // 2:
+        raise MachineryError(f'expected about {pool} behaviours, got {len(behs)}')
+    # replayed: a cover of every situation label TLC attached to the calls (which kind of target a proposal names,
+    # how many states are associated, a location change that meets a re-associated state ...) + a random fill
+    from verif.checks.mdibcommon import select_covering
+    behs, stats = select_covering(behs, num, run.seed, k=run.pick(2, 4))
+    run.note('situation_coverage', stats)
     traces = []
     for i, beh in enumerate(behs):
         ses = CtxSession(async_mgr=bool(i % 2))
